@@ -368,7 +368,7 @@ func cmdCheck(args []string) int {
 	// baseline comparison
 	base := map[string]bool{}
 	for _, n := range baseline[prop] {
-		base[n] = true
+		base[normCut(n)] = true
 	}
 	if *updateBaseline {
 		var names []string
@@ -384,7 +384,7 @@ func cmdCheck(args []string) int {
 		os.WriteFile(filepath.Join(*vdir, "baseline", "obligations.json"), data, 0o644)
 		base = map[string]bool{}
 		for _, n := range names {
-			base[n] = true
+			base[normCut(n)] = true
 		}
 	}
 	// A callee precondition (call: / spawn:) that discharges at every site of the unchanged tree
@@ -406,7 +406,7 @@ func cmdCheck(args []string) int {
 	}
 	os.MkdirAll(*replaysDir, 0o755)
 	for _, a := range aggs {
-		seen[a.name] = true
+		seen[normCut(a.name)] = true
 		st := a.status()
 		o0 := a.obls[0]
 		secs := 0.0
@@ -435,7 +435,7 @@ func cmdCheck(args []string) int {
 		}
 		switch {
 		case st == "proved":
-		case st == "failed" || base[a.name] || baseClause[clauseKey(a.name)]:
+		case st == "failed" || base[normCut(a.name)] || baseClause[clauseKey(a.name)]:
 			// violation: counterexample, or an obligation that discharged on the unchanged tree no longer does
 			violations++
 			var bad *Obligation
@@ -690,4 +690,14 @@ func clauseKey(name string) string {
 		}
 	}
 	return ""
+}
+
+var cutOrdinal = regexp.MustCompile(`([.#])s[0-9]+\.`)
+
+// normCut removes the ordinal of a release point from an obligation name ("F.s2.I7" -> "F.s.I7"):
+// the invariant / guarantee conjuncts are claimed at EVERY release point of a function, so a
+// harmless extra release point (which shifts the ordinals) must neither hide a baseline name nor
+// make one look vanished.
+func normCut(name string) string {
+	return cutOrdinal.ReplaceAllString(name, "${1}s.")
 }
